@@ -23,9 +23,10 @@ import sys
 from checks import common
 
 # lean/MjProof/Gen/CablePlugin.lean is written only by translate/c51_cable.py and read only by this property's modules.
-# Instead of the global generated-code lock (long queues behind other properties' worktree runs) the run is guarded by
-# a fingerprint: the generated file carries the content hash of the sources it came from, drv_c51 prints it, and the
-# check compares it with the hash of ITS tree before trusting the driver (mismatch after a retry = infrastructure error).
+# Instead of the global generated-code lock (long queues behind other properties' worktree runs) a C51 run holds its own
+# lock .cache/c51.lock, which translate/c51_cable.py respects when it is started by anybody else (regen_all.py), and is
+# additionally guarded by a fingerprint: the generated file carries the content hash of the sources it came from,
+# drv_c51 prints it, and the check compares it with the hash of ITS tree before trusting the driver.
 USES_GEN = False
 
 META = {
@@ -296,6 +297,20 @@ def run(ctx):
                 "jumps, constant, sine) replayed step by step; cable: chains of 2-9 bodies, first body welded/ball/free, capsule/"
                 "cylinder/box, random frame orientations (small to arbitrary), flat or curved reference, at the reference, "
                 "straight, and at random joint rotations; kernels: random inputs; a case is distinct by its full line")
+    # ---- C51 runs are serialised and own lean/MjProof/Gen/CablePlugin.lean for their duration (see translate/c51_cable.py)
+    import fcntl
+    os.makedirs(common.CACHE, exist_ok=True)
+    lock = open(os.path.join(common.CACHE, "c51.lock"), "a")
+    fcntl.flock(lock, fcntl.LOCK_EX)
+    try:
+        run_locked(ctx)
+    finally:
+        fcntl.flock(lock, fcntl.LOCK_UN)
+        lock.close()
+
+
+def run_locked(ctx):
+    own = {"C51_LOCK_HELD": "1"}
     # ---- T: regenerate the cable kernels from the working tree
     sys.path.insert(0, os.path.join(common.VERIF, "translate"))
     import c51_cable
@@ -303,7 +318,7 @@ def run(ctx):
     mp = os.path.join(common.LEAN, "MjProof", "Gen", "cable_manifest.json")
     drv = None
     for attempt in range(3):
-        r = common.sh([sys.executable, os.path.join(common.VERIF, "translate", "c51_cable.py")], timeout=900)
+        r = common.sh([sys.executable, os.path.join(common.VERIF, "translate", "c51_cable.py")], timeout=900, env=own)
         man = json.load(open(mp)) if os.path.exists(mp) else {"kernels": {}, "refused": {"*": "no manifest"}}
         if attempt == 0:
             ctx.oblige("translate/c51_cable.py regenerates lean/MjProof/Gen/CablePlugin.lean from the working tree", "translator",
@@ -332,7 +347,7 @@ def run(ctx):
     finally:
         if os.path.realpath(R) != "/repo":
             # leave the shared generated file as /repo's
-            env = dict(os.environ)
+            env = dict(os.environ, **own)
             env.pop("VERIF_REPO", None)
             import subprocess
             subprocess.run([sys.executable, os.path.join(common.VERIF, "translate", "c51_cable.py")], capture_output=True, text=True, env=env)
